@@ -227,6 +227,61 @@ namespace sim
               return empty ? "shape-list-emptied" : "shape-list-cut";
             }
         }
+      if (rng.chance(0.05) && d.IsObject() && d.HasMember("features") && d["features"].IsArray())
+        {
+          // a section's "coordinate" is an index into the feature's own "coordinates": put it right at the bound
+          // (n-1 is the last valid one, n and n+1 are the off-by-one and off-by-two a lookup table gets wrong);
+          // far-away values are already among the edge values, but an index 65536 past a small vector lands in
+          // memory no sanitizer owns, while n and n+1 land in the redzone
+          std::vector<Value *> feats;
+          for (auto &f : d["features"].GetArray())
+            if (f.IsObject() && f.HasMember("coordinates") && f["coordinates"].IsArray() && f.HasMember("model") && f["model"].IsString())
+              {
+                const std::string m = f["model"].GetString();
+                if ((f.HasMember("sections") && f["sections"].IsArray()) || m == "fault" || m == "subducting plate")
+                  feats.push_back(&f);
+              }
+          if (!feats.empty())
+            {
+              Value &f = *feats[rng.below(feats.size())];
+              const int ncoord = static_cast<int>(f["coordinates"].Size());
+              static const int delta[] = {0, 0, 1, 1, 2, -1};
+              const int idx = std::max(0, ncoord + delta[rng.below(6)]);
+              if (!f.HasMember("sections") || !f["sections"].IsArray())
+                {
+                  if (f.HasMember("sections"))
+                    f.RemoveMember("sections");
+                  Value k("sections", al), arr(kArrayType);
+                  f.AddMember(k, arr, al);
+                }
+              Value &secs = f["sections"];
+              Value *sec = nullptr;
+              for (auto &s : secs.GetArray())
+                if (s.IsObject() && rng.chance(0.7))
+                  {
+                    sec = &s;
+                    break;
+                  }
+              if (sec == nullptr)
+                {
+                  Value s(kObjectType);
+                  // a section that repeats the feature's own segments is a complete, acceptable section when its index is valid
+                  if (f.HasMember("segments") && rng.chance(0.8))
+                    {
+                      Value k("segments", al), c(f["segments"], al);
+                      s.AddMember(k, c, al);
+                    }
+                  secs.PushBack(s, al);
+                  sec = &secs[secs.Size() - 1];
+                }
+              if (sec->HasMember("coordinate"))
+                sec->RemoveMember("coordinate");
+              Value k("coordinate", al);
+              sec->AddMember(k, Value(idx), al);
+              ++applied;
+              return "section-index-at-bound";
+            }
+        }
       // bias towards arrays (list-valued parameters that have to agree in length)
       NodeRef n = nodes[rng.below(nodes.size())];
       if (rng.chance(0.45))
